@@ -5,3 +5,8 @@ reg("C17", [mon("rt", "mon_graphalg")],
     technique="runtime monitor: real topo_sort/SubgraphMerge/UnionFind driven over all small digraphs and merge histories, judged by independent Kahn/quotient/partition oracles",
     text="Bounded-exhaustive exploration (all digraphs <=4 nodes, all DAGs <=4 nodes x all try_merge sequences of length 3/4 x enemy sets) plus random <=14-node histories on the real implementation; each return value and the full structure after every step is judged by an independent oracle.",
     note="Oracles (Kahn, quotient reachability, partition) are ~60 lines written in the harness; graphs beyond 14 nodes are not explored.")
+
+# per-engine fragments (vlib/props_<engine>.py) register their own properties
+import glob as _glob, importlib as _importlib, os as _os
+for _f in sorted(_glob.glob(_os.path.join(_os.path.dirname(__file__), "props_*.py"))):
+    _importlib.import_module("vlib." + _os.path.basename(_f)[:-3])
